@@ -107,11 +107,14 @@ class History(RuleBasedStateMachine):
         self.marker = 0
         self.nfile = 0
         self.feats = set()
+        self.included = []
         self.checked = 0
 
     # ---- helpers
+    sink = None          # where add() puts items while an included file is being written
+
     def add(self, it):
-        self.items.append(it)
+        (self.sink if self.sink is not None else self.items).append(it)
 
     def _cond(self, data, dead):
         if dead and data.draw(st.integers(0, 2)) == 0:
@@ -298,18 +301,47 @@ class History(RuleBasedStateMachine):
         self.add({'t': 'require', 'text': which, 'met': met})
 
     @precondition(lambda self: not self.m.dead and self.nfile < 3)
-    @rule(n=st.integers(1, 3))
-    def include(self, n):
+    @rule(n=st.integers(1, 3), tail=st.sampled_from([None, None, 'else', 'endif', 'mute', 'unmute']),
+          dead_kind=st.sampled_from(['fresh', 'again', 'absent']))
+    def include(self, n, tail, dead_kind):
+        was_active = self.m.active
+        if not self.m.active:
+            # not compiled: the directive is inert, whatever it names (a file included before, a file that does not exist)
+            self.feats.add('side-effect-in-unselected:include')
+            if dead_kind == 'again' and self.included:
+                self.add(copy.deepcopy(self.included[0]))
+                self.feats.add('side-effect-in-unselected:include-of-a-file-included-before')
+                return
+            if dead_kind == 'absent':
+                self.add({'t': 'include', 'file': 'nowhere.asm', 'items': [], 'absent': True})
+                self.feats.add('side-effect-in-unselected:include-of-an-absent-file')
+                return
         self.nfile += 1
         sub = []
         for _ in range(n):
             self.marker += 1
             sub.append({'t': 'data', 'd': '.2byte', 'vals': [['num', self.marker, 'dec']]})
-        if not self.m.active:
-            self.feats.add('side-effect-in-unselected:include')
         if self.m.mute:
             self.feats.add('include-while-muted')
-        self.add({'t': 'include', 'file': f'inc{self.nfile}.asm', 'items': sub})
+        item = {'t': 'include', 'file': f'inc{self.nfile}.asm', 'items': sub}
+        if was_active and tail is not None:
+            # the included file ends in a directive that changes the state it shares with its includer
+            self.sink = sub
+            try:
+                if tail == 'else' and self.m.stack and not self.m.stack[-1]['else']:
+                    self.else_()
+                    self.feats.add('included-file-ends-in:else')
+                elif tail == 'endif' and self.m.stack:
+                    self.endif()
+                    self.feats.add('included-file-ends-in:endif')
+                elif tail in ('mute', 'unmute'):
+                    self.mute(tail == 'unmute', 'emit')
+                    self.feats.add('included-file-ends-in:' + tail)
+            finally:
+                self.sink = None
+        self.add(item)
+        if was_active:
+            self.included.append(item)
 
     @precondition(lambda self: not self.m.dead and not self.m.stack and self.items)
     @rule(kind=st.sampled_from(['else', 'endif', 'elif']), gate=st.integers(0, 7))
